@@ -22,7 +22,7 @@ META = {
         "thorough": "trees with <= 3 operators (all) plus a VERIF_SEED-drawn sample of 4- and 5-operator trees; same leaves; literals up to 6/5/8 digits",
     },
     "outside": [
-        "operators / % ^ == != < > (not in the statement)", "operand of ~ negative or >= 2^32 (statement silent)", "leaf values >= 2^12 (keeps products inside the engine's 63 bits)",
+        "operators / % ^ == != < > (not in the statement)", "operand of ~ with magnitude >= 2^32", "leaf values >= 2^12 (keeps products inside the engine's 63 bits)",
         "0X / 0B upper-case prefixes and decimal literals with leading zeros (accepted or rejected, never mis-evaluated)",
         ".for bounds with symbolic values (context covered with literal operands only)",
     ],
